@@ -122,6 +122,7 @@ static size_t * segs = NULL;		/* segment sizes, cycled; nsegs == 0: everything a
 static size_t nsegs = 0, segidx, curseg;
 static int end_reset = 0;
 static int opt_conn = 0;		/* number of addresses which refuse the connection */
+static int opt_conn_sync = 0;		/* ... inside connect() rather than later */
 static size_t opt_sndmax = 0;		/* 0 = unlimited */
 static long long opt_sndfail = -1;	/* send fails once this many bytes were accepted */
 static long long opt_cancel = -1;	/* 0: right after http_request; k: after the k-th wait */
@@ -173,6 +174,11 @@ __wrap_connect(int s, const struct sockaddr * a, socklen_t l)
 {
 
 	(void)s; (void)a; (void)l;
+	if (opt_conn_sync && nsockets <= opt_conn) {
+		/* refused synchronously: network_connect tries the next address, and queues the failure when none is left */
+		errno = ECONNREFUSED;
+		return (-1);
+	}
 	errno = EINPROGRESS;
 	return (-1);
 }
@@ -535,6 +541,7 @@ case_reset(void)
 	nsegs = 0;
 	end_reset = 0;
 	opt_conn = 0;
+	opt_conn_sync = 0;
 	opt_sndmax = 0;
 	opt_sndfail = -1;
 	opt_cancel = -1;
@@ -864,6 +871,12 @@ main(void)
 		} else if (hc_is("opt", 5)) {
 			opt_conn = atoi(hc_tok[1]);
 			opt_sndmax = (size_t)strtoull(hc_tok[2], NULL, 10);
+			/* 1000000 + sndmax: the refusing addresses refuse at once, inside connect() (a harness-side detail like sndmax) */
+			opt_conn_sync = 0;
+			if (opt_sndmax >= 1000000) {
+				opt_conn_sync = 1;
+				opt_sndmax -= 1000000;
+			}
 			opt_sndfail = strcmp(hc_tok[3], "-") ? atoll(hc_tok[3]) : -1;
 			opt_cancel = opt_cancel_recv = -1;
 			if (hc_tok[4][0] == 'r')
